@@ -222,9 +222,7 @@ func (hc *histChecker) finish(allowUnowned func(e *lmEntry) bool) {
 func (hc *histChecker) onScriptReply(op *Op) {
 	w := hc.w
 	lm := hc.lm
-	if op.Reply.isErr() {
-		return
-	}
+	failed := op.Reply.isErr() // a script that failed half-way may still have made its first writes
 	atomic := op.name() == "eval" || op.name() == "evalsha"
 	from := lm.posBefore(op.Invoke)
 	prev := -1
@@ -239,6 +237,9 @@ func (hc *histChecker) onScriptReply(op *Op) {
 				found = j
 				break
 			}
+		}
+		if found < 0 && failed {
+			return
 		}
 		if found < 0 {
 			w.violate(hc.class+"/script", "acknowledged script a%02d op%d: its write [%s] is not in the log", op.Client, op.Idx, clipStr(strings.Join(in, " "), 160))
